@@ -68,6 +68,7 @@ static scpi_result_t cb_flush(scpi_t *c) { (void) c; flushw(); oput(" F", 2); re
 static scpi_result_t cb_ctrl(scpi_t *c, scpi_ctrl_name_t n, scpi_reg_val_t v) { (void) c; if (muted) return SCPI_RES_OK; flushw(); if (n == SCPI_CTRL_SRQ) oprintf(" Q%d", (int) v); return SCPI_RES_OK; }
 static scpi_result_t cb_reset(scpi_t *c) { (void) c; return SCPI_RES_OK; }
 static scpi_interface_t ifc = { cb_error, cb_write, cb_ctrl, cb_flush, cb_reset };
+static scpi_interface_t ifc_noerr = { NULL, cb_write, cb_ctrl, cb_flush, cb_reset };      /* a firmware that installs no error callback (legal: every use is NULL-checked) */
 
 #define MAXCMD 48
 static char *scripts[MAXCMD]; static char *patterns[MAXCMD]; static scpi_command_t cmds[MAXCMD + 1]; static int ncmd;
@@ -344,7 +345,7 @@ static void run_reg(char *line) {
     oput("REG", 3);
     for (char *part = strtok_r(line, "|", &save); part; part = strtok_r(NULL, "|", &save)) {
         int a, b;
-        if (!strncmp(part, "REG", 3)) { sscanf(part, "REG %d", &qcap); eq = malloc(sizeof(scpi_error_t) * qcap); SCPI_Init(&ctx, std_cmds, &ifc, scpi_units_def, "a", "b", "c", "d", ibuf, 256, eq, qcap); }
+        if (!strncmp(part, "REG", 3)) { int noerr = part[3] == 'N'; sscanf(part + (noerr ? 4 : 3), "%d", &qcap); eq = malloc(sizeof(scpi_error_t) * qcap); SCPI_Init(&ctx, std_cmds, noerr ? &ifc_noerr : &ifc, scpi_units_def, "a", "b", "c", "d", ibuf, 256, eq, qcap); }
         else if (part[0] == 'W') { sscanf(part, "W %d %d", &a, &b); SCPI_RegSet(&ctx, (scpi_reg_name_t) a, (scpi_reg_val_t) b); reg_show(&ctx); }
         else if (part[0] == 'P') { sscanf(part, "P %d", &a); SCPI_ErrorPush(&ctx, (int16_t) a); reg_show(&ctx); }
         else if (part[0] == 'O') { scpi_error_t e; SCPI_ErrorPop(&ctx, &e); SCPIDEFINE_free(&ctx.error_info_heap, e.device_dependent_info, false); reg_show(&ctx); }
@@ -375,7 +376,8 @@ static void run_eq(char *line) {
 #endif
         } else if (part[0] == 'P') {
             int code, len = 0, fail = 0; static char ih[1 << 15]; ih[0] = 0; sscanf(part, "P %d %32767s %d %d", &code, ih, &len, &fail);
-            char *info = NULL; if (strcmp(ih, "-") != 0) { size_t n = strlen(ih) / 2; info = malloc(n + 1); unhex(ih, (unsigned char *) info); info[n] = 0; }
+            char *info = NULL; if (!strcmp(ih, "=")) { info = malloc(1); info[0] = 0; }        /* "=": the empty string (not NULL) */
+            else if (strcmp(ih, "-") != 0) { size_t n = strlen(ih) / 2; info = malloc(n + 1); unhex(ih, (unsigned char *) info); info[n] = 0; }
             fail_next_alloc = fail; muted = 1; SCPI_ErrorPushEx(&ctx, (int16_t) code, info, len); muted = 0; fail_next_alloc = 0; oprintf(" p%d", (int) SCPI_ErrorCount(&ctx)); free(info);
         } else if (part[0] == 'O') {
             scpi_error_t e; muted = 1; SCPI_ErrorPop(&ctx, &e); muted = 0; oprintf(" o%d", (int) e.error_code);
@@ -477,7 +479,7 @@ int main(void) {
         else if (!strncmp(line, "I2S ", 4)) run_i2s(line);
         else if (!strncmp(line, "I2SSWEEP ", 9)) { alarm(3000); run_i2ssweep(line); }
         else if (!strncmp(line, "RERR ", 5)) run_rerr(line);
-        else if (!strncmp(line, "REG ", 4)) run_reg(line);
+        else if (!strncmp(line, "REG ", 4) || !strncmp(line, "REGN ", 5)) run_reg(line);
         else if (!strncmp(line, "EQ ", 3)) run_eq(line);
         else if (!strncmp(line, "D2S ", 4) || !strncmp(line, "F2S ", 4)) run_fp2s(line);
         else if (!strncmp(line, "N2S ", 4)) run_n2s(line);
